@@ -82,6 +82,17 @@ pub fn main(o: &Opts) -> i32 {
         run(case(&mut out, "auto_bool", xb.clone(), || { let c = TypeSpecificCompressor::compress_booleans(&bools); (TypeSpecificCompressor::decompress_booleans(&c).map(|d| d.iter().map(|b| *b as i64).collect()).unwrap_or_else(|_| vec![-998]), None, None) }));
         run(case(&mut out, "dictionary", xu.clone(), || { let mut b = DictionaryBuilder::new(); let strs: Vec<String> = u.iter().map(|v| format!("s{v}")).collect(); for x in &strs { b.add(x); } let e = b.build();
             let dec: Vec<i64> = (0..strs.len()).map(|k| e.get(k).and_then(|x| x[1..].parse::<u64>().ok()).map(su).unwrap_or(-999)).collect(); (dec, None, None) }));
+        // a builder that held a batch with NULLs and was cleared encodes the next batch as a fresh one would
+        run(case(&mut out, "dictionary_reuse", xu.clone(), || { let mut b = DictionaryBuilder::new();
+            for k in 0..(u.len() + 2) { if k % 2 == 0 { b.add_null(); } else { b.add("old"); } }
+            b.clear();
+            let strs: Vec<String> = u.iter().map(|v| format!("s{v}")).collect(); for x in &strs { b.add(x); } let e = b.build();
+            let dec: Vec<i64> = (0..strs.len()).map(|k| e.get(k).and_then(|x| x[1..].parse::<u64>().ok()).map(su).unwrap_or(-999)).collect(); (dec, None, None) }));
+        // NULL entries (every symbol with an even index is a NULL) keep their positions
+        run(case(&mut out, "dictionary_nulls", s.iter().enumerate().map(|(k, _)| if s[k] % 2 == 0 { -1 } else { xu[k] }).collect(), || { let mut b = DictionaryBuilder::new();
+            for (k, v) in u.iter().enumerate() { if s[k] % 2 == 0 { b.add_optional(None); } else { b.add_optional(Some(&format!("s{v}"))); } }
+            let e = b.build();
+            let dec: Vec<i64> = (0..u.len()).map(|k| if e.is_null(k) { if e.get(k).is_none() { -1 } else { -997 } } else { e.get(k).and_then(|x| x[1..].parse::<u64>().ok()).map(su).unwrap_or(-999) }).collect(); (dec, None, None) }));
         // succinct structures: access / rank / select = definition on the decoded sequence
         let mut usd = us.clone(); usd.dedup();
         let xusd: Vec<i64> = usd.iter().map(|v| su(*v)).collect();
